@@ -917,6 +917,7 @@ func (ro *RedisOutput) sendCmdsBatch(replayWait usync.WaitCloser, conn client.Re
 	verifhook.Ticker("checkpoint", updateCpTicker)
 
 	cpInDbs := make(map[int]struct{})
+	sentDb := -2 // Db of the last command sent on the connection, -2 : nothing sent yet
 
 	// transaction : call sendFunc when command is "exec", never break down a transaction
 	// non-transaction : call sendFunc when queue is full or ticker is delivered
@@ -1001,12 +1002,14 @@ func (ro *RedisOutput) sendCmdsBatch(replayWait usync.WaitCloser, conn client.Re
 
 		if shouldUpdateCP {
 			if ro.cfg.EnableResumeFromBreakPoint {
-				if len(cmdQueue) > 0 {
-					lastCmd := cmdQueue[len(cmdQueue)-1]
-					if _, ok := cpInDbs[lastCmd.Db]; !ok {
-						cpInDbs[lastCmd.Db] = struct{}{}
-						batcher.Put("hset", checkpointKv.Key, checkpointKv.RunIdKey(), runId, checkpointKv.VersionKey(), config.Version)
-					}
+				// database the connection is in when the checkpoint is written
+				cpDb := sentDb
+				if len(cmdQueue) > 0 && cmdQueue[len(cmdQueue)-1].Cmd != "ping" {
+					cpDb = cmdQueue[len(cmdQueue)-1].Db
+				}
+				if _, ok := cpInDbs[cpDb]; !ok {
+					cpInDbs[cpDb] = struct{}{}
+					batcher.Put("hset", checkpointKv.Key, checkpointKv.RunIdKey(), runId, checkpointKv.VersionKey(), config.Version)
 				}
 				batcher.Put("hset", checkpointKv.Key, checkpointKv.OffsetKey(), lastOffset)
 			} else {
@@ -1037,6 +1040,9 @@ func (ro *RedisOutput) sendCmdsBatch(replayWait usync.WaitCloser, conn client.Re
 			return err
 		}
 
+		if len(cmdQueue) > 0 && cmdQueue[len(cmdQueue)-1].Cmd != "ping" {
+			sentDb = cmdQueue[len(cmdQueue)-1].Db
+		}
 		sendOffsetGauge.Set(float64(lastOffset), ro.cfg.InputName)
 		sendSizeCounter.Add(float64(queuedByteSize), ro.cfg.InputName)
 		ro.sendCounterAdd(uint(cmdCounter))
